@@ -3,7 +3,7 @@
 pass, the demonstration fails with the patch and passes without it. Writes seeded/_candidates/<id>/<m>/confirm.json"""
 import json, os, re, subprocess, sys, glob
 WT = sys.argv[1] if len(sys.argv) > 1 else "/tmp/wt-confirm"
-CAND = "/verif/seeded/_candidates"
+CAND = sys.argv[2] if len(sys.argv) > 2 and not sys.argv[2].startswith("--") else "/verif/seeded/_candidates"
 BASE = set(json.load(open("/root/.vp/BASELINE.json"))["stable_pass"])
 
 def sh(cmd, cwd=WT, timeout=3600):
